@@ -49,6 +49,12 @@ def cases(tier, seed):
                     for vk in ('real', 'complex', 'hermitian'):
                         add('eig', D=D, n=n, vals=vk, rep=rep)
             add('eigh_scaled', D=D, n=4, rep=rep)
+            if D in (2, 3):
+                for sc in (1e-150, 1e-10, 1e10, 1e150):          # tiny and huge matrices (the factors are representable at every one of these scales)
+                    add('qr', D=D, M=4, N=3, rep=rep, scale=sc); add('qr_full', D=D, M=3, N=3, rep=rep, scale=sc)
+                    add('cholesky', D=D, n=3, rep=rep, scale=sc); add('lu', D=D, n=3, pivot=True, rep=rep, scale=sc)
+                for sc in (1e-100, 1e-10, 1e8, 1e100):
+                    add('eigh', D=D, n=3, split=-1, rep=rep, scale=sc); add('svd', D=D, M=3, N=3, rep=rep, scale=sc); add('svd', D=D, M=4, N=2, rep=rep, scale=sc)
             if D >= 3:
                 for lowdeg in (1, 2):          # A(t) = A0 resp. A0 + A1 t propagated with a larger D: the output is not of low degree
                     add('qr', D=D, M=4, N=3, rep=rep, lowdeg=lowdeg); add('qr_full', D=D, M=3, N=3, rep=rep, lowdeg=lowdeg)
@@ -79,11 +85,13 @@ def _prime(rng):
 
 
 _LOWDEG = None
+_SCALE = None
 
 
 def run_case(ctx, case):
-    global _LOWDEG
+    global _LOWDEG, _SCALE
     _LOWDEG = case['params'].get('lowdeg')
+    _SCALE = case['params'].get('scale')
     rng = gen.rng_of(case)
     if rng.random() < 0.35:
         _prime(rng)
@@ -102,6 +110,8 @@ def _series(rng, D, P, M, N, base, scale=0.5):
         x[0, P - 1] = x[0, 0]              # the same base point again after a different one (X, Y, X): only the higher coefficients differ
     elif P >= 2 and rng.random() < 0.2:
         x[0, 1] = x[0, 0]
+    if _SCALE:
+        x *= _SCALE            # the whole polynomial scaled: factorizations are homogeneous, the checks below undo the scale
     return x
 
 
@@ -130,7 +140,12 @@ def _qr(ctx, p, rng, full=False):
     if use_out:
         mech += ':reused-out'
     try:
-        if use_out and M == N and rng.random() < 0.4:       # the overwrite-the-input form: one factor replaces A
+        if _SCALE:
+            mech += ':scale1e%+d' % int(round(np.log10(_SCALE)))
+        if _SCALE and _SCALE < 1 and not full:
+            # the rank threshold is an absolute, user-settable parameter: below its default it is passed
+            Qm, R = UTPM.qr(UTPM(a.copy()), epsilon=1e-14 * _SCALE)
+        elif use_out and M == N and rng.random() < 0.4:       # the overwrite-the-input form: one factor replaces A
             Ain = UTPM(a.copy())
             Qm, R = (UTPM.qr_full if full else UTPM.qr)(Ain, out=(Ain, kw['out'][1]) if rng.random() < .5 else (kw['out'][0], Ain))
         else:
@@ -141,6 +156,8 @@ def _qr(ctx, p, rng, full=False):
     if Qm.data.shape != (D, P, M, K) or R.data.shape != (D, P, K, N):
         ctx.violation(mech + ':shape', {'Q': Qm.data.shape, 'R': R.data.shape, 'M': M, 'N': N}); return
     q, r = Qm.data, R.data
+    if _SCALE:
+        r = r / _SCALE; a = a / _SCALE
     e1 = _res(lin.cdot(q, r), a)
     e2 = _res(lin.cdot(lin.T(q), q), lin.eye(D, P, K))
     e3 = _upper_violation(r)
@@ -177,6 +194,8 @@ def _cholesky(ctx, p, rng):
     if L.data.shape != a.shape:
         ctx.violation('cholesky:shape', {'got': L.data.shape}); return
     l = L.data
+    if _SCALE:
+        l = l / np.sqrt(_SCALE); a = a / _SCALE
     e1 = _res(lin.cdot(l, lin.T(l)), a)
     e3 = _upper_violation(lin.T(l))
     z = max(float(np.max(np.abs(l[0, pp] - np.linalg.cholesky(a[0, pp])))) for pp in range(P))
@@ -206,6 +225,8 @@ def _lu(ctx, p, rng):
     except Exception as e:
         ctx.violation(mech + ':raises:' + type(e).__name__, {'n': n, 'D': D, 'P': P, 'error': repr(e)[:200]}); return
     w, l, u = W.data, L.data, Uu.data
+    if _SCALE:
+        u = u / _SCALE; a = a / _SCALE
     if not (w.shape == l.shape == u.shape == a.shape):
         ctx.violation(mech + ':shape', {'W': w.shape, 'L': l.shape, 'U': u.shape}); return
     LU, MLU = lin.cdot(l, u)
@@ -284,7 +305,12 @@ def _eigh(ctx, p, rng):
     if use_out:
         mech += ':reused-out'
     try:
-        if use_out and rng.random() < 0.4:          # the overwrite-the-input form: the eigenvectors replace A
+        if _SCALE:
+            mech += ':scale1e%+d' % int(round(np.log10(_SCALE)))
+            # the threshold for repeated eigenvalues is an absolute, user-settable parameter: below its default it is passed
+            l, Qm = UTPM.eigh(UTPM(a.copy()), epsilon=1e-8 * _SCALE) if _SCALE < 1 else UTPM.eigh(UTPM(a.copy()))
+            l = UTPM(l.data / _SCALE); a = a / _SCALE
+        elif use_out and rng.random() < 0.4:          # the overwrite-the-input form: the eigenvectors replace A
             Ain = UTPM(a.copy())
             l, Qm = UTPM.eigh(Ain, out=(UTPM(rng.normal(size=(D, P, n))), Ain))
         else:
@@ -441,7 +467,12 @@ def _svd(ctx, p, rng):
     a = _series(rng, D, P, M, N, base, scale=0.4)
     mech = 'svd:' + cls
     try:
-        U, s, V = algopy.svd(UTPM(gen.relayout(a, gen.LAYOUTS[int(rng.integers(5))])))
+        if _SCALE:
+            mech += ':scale1e%+d' % int(round(np.log10(_SCALE)))
+            U, s, V = UTPM.svd(UTPM(a.copy()), epsilon=1e-8 * _SCALE) if _SCALE < 1 else UTPM.svd(UTPM(a.copy()))
+            s = UTPM(s.data / _SCALE); a = a / _SCALE
+        else:
+            U, s, V = algopy.svd(UTPM(gen.relayout(a, gen.LAYOUTS[int(rng.integers(5))])))
     except Exception as e:
         ctx.violation(mech + ':raises:' + type(e).__name__, {'M': M, 'N': N, 'D': D, 'P': P, 'error': repr(e)[:300]}); return
     if U.data.shape != (D, P, M, M) or s.data.shape != (D, P, K) or V.data.shape != (D, P, N, N):
